@@ -42,8 +42,8 @@ Proof. apply registry_ofb_sound; vm_compute; reflexivity. Qed.
 Lemma ex7_hypotheses :
   nth_error ex7_defs 0 = Some ex7_sd /\ teq_program_okb ex7_sd = true /\
   instantiation_cf ex7_defs ex7_sd [SPrimT PU16] = true /\ instantiation_cf ex7_defs ex7_sd [SPrimT PBool] = true /\
-  label_at ex7_labels 0 = Some (SApp 0 [SPrimT PU16]) /\ label_at ex7_labels 7 = Some (SApp 0 [SPrimT PBool]) /\
-  types_equal_res ex7_reg 0 7 = Ok true.
+  label_at ex7_labels 0 = Some (SApp 0 [SPrimT PU16]) /\ label_at ex7_labels 10 = Some (SApp 0 [SPrimT PBool]) /\
+  types_equal_res ex7_reg 0 10 = Ok true.
 Proof. repeat split; vm_compute; reflexivity. Qed.
 
 Lemma f19_RegistryOf : RegistryOf f19_defs (label_at f19_labels) f19_reg.
